@@ -342,6 +342,16 @@ def _sign_convention(res, index):
                                                          (isinstance(op_.func, ast.Attribute) and op_.func.attr == "max"))
                 if is_max and "_point_plane_distances" in _expanded(op_, f.node):
                     ok = True
+            if pol == "negmax" and isinstance(node, ast.Call):
+                # min(-distances): the same number as -max(distances)
+                fname_ = ast.unparse(node.func)
+                is_min = fname_ in ("np.min", "np.amin", "min") or (isinstance(node.func, ast.Attribute) and node.func.attr == "min")
+                arg_ = node.args[0] if node.args else (node.func.value if isinstance(node.func, ast.Attribute) and node.func.attr == "min" else None)
+                if is_min and arg_ is not None:
+                    from ..astutil import resolve as _resolve
+                    a_ = _resolve(arg_, f.node, depth=6)
+                    if isinstance(a_, ast.UnaryOp) and isinstance(a_.op, ast.USub) and "_point_plane_distances" in _expanded(a_.operand, f.node):
+                        ok = True
         reads_col3 = any(isinstance(n_, ast.Subscript) and ast.unparse(n_).replace(" ", "").endswith(("[:,3]", "[3]", "[...,3]", ",3]"))
                          for n_ in ast.walk(f.node)) or "_point_plane_distances" in ast.unparse(f.node)
         if ok:
